@@ -103,7 +103,12 @@ def _translate_ds9_to_visual(shape, visual_meta):
         if len(point_) == 1:
             ds9_marker = point_[0]
         elif len(point_) == 2:
-            ds9_marker, meta['markersize'] = point_
+            ds9_marker, markersize = point_
+            # the size is a number (DS9 writes an integer)
+            try:
+                meta['markersize'] = int(markersize)
+            except ValueError:
+                meta['markersize'] = float(markersize)
         else:
             raise ValueError(f'invalid point data "{point}"')
         meta['marker'] = ds9_valid_symbols[ds9_marker]
@@ -131,7 +136,10 @@ def _translate_ds9_to_visual(shape, visual_meta):
 
         # fontsize is a string
         try:
-            meta['fontsize'] = int(meta['fontsize'])
+            fontsize = float(meta['fontsize'])
+            if not fontsize.is_integer():
+                raise ValueError
+            meta['fontsize'] = int(fontsize)
         except ValueError:
             raise DS9ParserError('font size must be an integer, got '
                                  f'{meta["fontsize"]}') from None
@@ -213,6 +221,11 @@ def _translate_metadata_to_ds9(region, shape):
     if fill is not None:
         meta['fill'] = int(fill)
 
+    # DS9 has one text label per region: a label is written as its text
+    label = meta.pop('label', None)
+    if label is not None and 'text' not in meta:
+        meta['text'] = label
+
     if 'text' in meta:
         meta['text'] = _delimit_text(meta['text'])
 
@@ -256,15 +269,20 @@ def _translate_metadata_to_ds9(region, shape):
                           AstropyUserWarning)
 
     fontname = meta.pop('fontname', None)
+    if fontname is None and any(key in meta for key in
+                                ('fontsize', 'fontweight', 'fontstyle')):
+        fontname = 'helvetica'  # the DS9 default font
     if fontname is not None:
         fontsize = meta.pop('fontsize', 10)  # default 10
+        if isinstance(fontsize, float) and fontsize.is_integer():
+            fontsize = int(fontsize)  # DS9 font sizes are integers
         fontweight = meta.pop('fontweight', 'normal')  # default normal
         # default roman
         fontstyle = meta.pop('fontstyle', 'roman').replace('normal', 'roman')
         meta['font'] = f'"{fontname} {fontsize} {fontweight} {fontstyle}"'
 
     linestyle = meta.pop('linestyle', None)
-    if linestyle is not None:
+    if linestyle is not None and linestyle not in ('-', 'solid'):
         meta['dash'] = 1
     # if linestyle in ('dashed', '--'):
     if isinstance(linestyle, tuple):
